@@ -242,7 +242,8 @@ CHECKS["C20"] = {
             "when the model says the proxy reports an error, `list` rows = the model's services. Non-trivial = a row where two sources "
             "disagree / a refused combination / a command with an error outcome. Distinct by case tuple or plan hash.",
     "layers": [L("TestVF_C20_RunOptions", 1, 1, shards=1, rapid=False, pkg="cmd"), L("TestVF_C20_DeployValidation", 1, 1, shards=1, rapid=False, pkg="cmd"),
-               L("TestVF_C20_Binary", 40, 300, shards=8, pkg="cmd", binary=True)],
+               L("TestVF_C20_Binary", 40, 300, shards=8, pkg="cmd", binary=True),
+               L("TestVF_C20_Args", 600, 6000, shards=8, pkg="cmd")],
     "technique": "exhaustive decision-table enumeration in package cmd + property-based testing (rapid) of command histories against the built binary",
     "level_text": "The two decision tables are enumerated completely; the binary layer is bounded random exploration.",
     "level_note": "In-process layers construct fresh cobra commands per case; the binary layer uses real loopback sockets and wall-clock waits as generous guards (a guard hit is inconclusive, never a violation).",
@@ -361,3 +362,16 @@ for _pid, _t, _what in [("C04", "FuzzVF_C04_Route", "a bare routing table agains
 
 ALL_IDS = ["C%02d" % i for i in range(1, 21)]
 NOT_APPLICABLE = {pid: "check not built yet (work in progress; see DESIGN.md section 8 for the order of work)" for pid in ALL_IDS if pid not in CHECKS}
+
+
+# The operator's options must reach the proxy: for every property whose statement speaks of an operator-given option
+# (a timeout, a message, a percentage, a limit, a header list), one layer executes the real client commands in-process
+# against a fake proxy (net/rpc server on a unix socket recording method and arguments) - see harness/cmd/vf_c20_args_test.go.
+ARGS_RULE = (" CLI layer (TestVF_%s_Args): generated command lines for the commands this property's options are given on, always "
+             "with at least one of those options; executed by the real cobra commands and RPC client against a fake proxy; oracle: "
+             "one call to the command's method, every flag given arrives in the argument field it is documented for with the value "
+             "given, dropping one flag changes no other field, the command reports an error exactly when the proxy does. "
+             "Non-trivial there = two or more flags, or an error answer.")
+for _id in ("C01", "C03", "C07", "C08", "C09", "C10", "C13", "C14", "C15", "C16", "C17", "C19"):
+    CHECKS[_id]["layers"].append(L("TestVF_%s_Args" % _id, 300, 4000, shards=4, pkg="cmd"))
+    CHECKS[_id]["rule"] += ARGS_RULE % _id
